@@ -105,6 +105,16 @@ def worker(case):
                     p_.is_array = True
                     p_.lower_index = 3
                     break
+    if len(case) > 3 and case[3] == "after-refused-edits":
+        # not from the initial state: every kind of editing call is first refused once (nothing may have changed)
+        _hier.refused_prelude(n)
+    if len(case) > 3 and case[3] == "case-twins":
+        # siblings whose names differ in letter case only (legal under the default policy)
+        for d in n.libraries[0].definitions:
+            for group in (list(d.children), list(d.cables)):
+                named = [x for x in group if x.name]
+                if len(named) >= 2:
+                    named[1].name = named[0].name.swapcase()
     if len(case) > 3 and case[3] == "unnamed":
         for d in n.libraries[0].definitions:
             for x in list(d.children)[:1]:
@@ -186,6 +196,20 @@ def worker(case):
                     if chain(h) not in back:
                         probs.append(("not-found-by-its-own-name:" + fname, "%s(netlist, %r) does not return the reference named %r" % (fname, nm_, nm_)))
                         break
+                    # the name as a pattern under the non-default options: exactly the references whose name matches
+                    from checks import c13
+                    for opts in ({"is_case": False}, {"is_re": True}, {"is_case": False, "is_re": True}):
+                        nq[0] += 1
+                        try:
+                            back = set(chain(x) for x in fns[fname](n, nm_, recursive=True, **opts))
+                        except Exception as ex:
+                            probs.append(("query-raised:%s:%s" % (fname, type(ex).__name__), "%r %r" % (nm_, opts)))
+                            continue
+                        wantp = set(chain(x) for x in res if c13.match(x.name, nm_, opts.get("is_case", True), opts.get("is_re", False), ".NAME", "DEFAULT", True))
+                        if back != wantp:
+                            probs.append(("pattern-options:%s:%s:%s" % ("missing" if wantp - back else "extra", fname, "+".join(sorted(opts))),
+                                          "%s(netlist, %r, %r): expected %d got %d" % (fname, nm_, opts, len(wantp), len(back))))
+                            break
                     # the name given twice, or next to a wildcard that covers it: still one reference per occurrence
                     for pats in ([nm_, nm_], ["*", nm_], [nm_, "*"]):
                         nq[0] += 1
@@ -295,6 +319,42 @@ def worker(case):
                 probs.append(("is_unique-wrong", "%s: %s reports %s, instance occurs %d times" % (tag, h.name, h.is_unique, cnt.get(id(seq[-1]), 0))))
     if kind == "query":
         return {"key": key, "nontrivial": _hier.sharing(occ.e), "outcome": "ok", "problems": probs, "transitions": nq[0]}
+    if kind == "renamed":
+        # ---- one renaming edit (nothing is broken): a reference held from before, whose name has already been
+        # read, is named after the netlist as it is now, and is found under that name
+        names_before = {cc: h.name for cc, h in held.items()}
+        renames = list_renames(n)
+        ei = case[3]
+        if ei >= len(renames):
+            return {"key": key, "nontrivial": False, "outcome": "no-such-edit", "problems": probs, "transitions": nq[0]}
+        name, fn = renames[ei]
+        fn()
+        ename = name.split(":")[0]
+        changed = 0
+        for cc, h in held.items():
+            want = expected_name(items_of(h))
+            changed += want != names_before[cc]
+            if h.name != want:
+                probs.append(("stale-name-after:%s" % ename, "%s: after %s the reference reads %r, the netlist says %r" % (tag, name, h.name, want)))
+                break
+            if not h.is_valid:
+                probs.append(("is_valid-wrong-after:%s" % ename, "%s: after %s reference %s reports invalid" % (tag, name, describe(h))))
+                break
+        for fname in fns:
+            nq[0] += 1
+            res = list(fns[fname](n, recursive=True))
+            for h in res[:30]:
+                nm_ = h.name
+                if h.name != expected_name(items_of(h)):
+                    probs.append(("wrong-name-after:%s:%s" % (ename, fname), "%s: %r != %r" % (tag, h.name, expected_name(items_of(h)))))
+                    break
+                if not nm_ or any(ch in nm_ for ch in "*?["):
+                    continue
+                nq[0] += 1
+                if chain(h) not in [chain(x) for x in fns[fname](n, nm_, recursive=True)]:
+                    probs.append(("not-found-by-its-own-name-after:%s:%s" % (ename, fname), "%s: %r" % (tag, nm_)))
+                    break
+        return {"key": key, "nontrivial": changed > 0, "outcome": ename, "problems": list(dict.fromkeys(probs)), "transitions": nq[0] + len(held)}
     # ---- one breaking edit, then every held reference is re-judged
     held[top_ids] = HRef.from_sequence([n.top_instance])
     edits = list_edits(n) if kind == "edit" else list_undone(n)
@@ -390,6 +450,25 @@ def list_edits(n):
     return out
 
 
+def list_renames(n):
+    """Edits that change what references are called without breaking any: renames along the paths, a bit inserted
+    in front of a bus, another base index."""
+    s = core.sdn()
+    out = []
+    for lib in n.libraries:
+        for d in lib.definitions:
+            for x in list(d.children)[:2]:
+                out.append(("instance-renamed:%s/%s" % (d.name, x.name), lambda x=x: setattr(x, "name", x.name + "_r")))
+            for c in list(d.cables)[:2]:
+                out.append(("cable-renamed:%s/%s" % (d.name, c.name), lambda c=c: setattr(c, "name", c.name + "_r")))
+                out.append(("wire-inserted-in-front:%s/%s" % (d.name, c.name), lambda c=c: c.add_wire(s.Wire(), position=0)))
+                out.append(("cable-rebased:%s/%s" % (d.name, c.name), lambda c=c: (setattr(c, "is_array", True), setattr(c, "lower_index", c.lower_index + 4))))
+            for p_ in list(d.ports)[:1]:
+                out.append(("port-renamed:%s/%s" % (d.name, p_.name), lambda p_=p_: setattr(p_, "name", p_.name + "_r")))
+                out.append(("port-rebased:%s/%s" % (d.name, p_.name), lambda p_=p_: (setattr(p_, "is_array", True), setattr(p_, "lower_index", p_.lower_index + 2))))
+    return out
+
+
 def list_undone(n):
     """Edits that take something out and put it back where it was: nothing is broken afterwards."""
     out = []
@@ -433,6 +512,7 @@ def cases(tier):
             out.append((desc, "asc", "query"))
     for desc in design.shape_family(4 if tier == "thorough" else 3):
         out.append((desc, "asc", "query"))
+        out.append((desc, "asc", "query", "after-refused-edits"))
         for ei in range(MAX_EDITS if tier == "thorough" else 12):
             out.append((desc, "asc", "edit", ei))
         for ei in range(24 if tier == "thorough" else 8):
@@ -442,6 +522,8 @@ def cases(tier):
         nd = len(design.SKELETONS[sk][0])
         # (the deep skeletons enter the quick tier with one wiring and one order)
         for first in ((0,) * nd, (1,) + (0,) * (nd - 1)) if not deep else ((1,) + (0,) * (nd - 1),):
+            out.append(((sk, first, "plain"), "asc", "query", "after-refused-edits"))
+            out.append(((sk, first, "plain"), "asc", "query", "case-twins"))
             out.append(((sk, first, "plain"), "asc", "query", "unnamed"))
             out.append(((sk, first, "plain"), "asc", "query", "unnamed-all"))
             out.append(((sk, first, "plain"), "asc", "query", "array1"))
@@ -450,6 +532,8 @@ def cases(tier):
                     out.append(((sk, first, "plain"), order, "edit", ei))
             for ei in range(24):
                 out.append(((sk, first, "plain"), "asc", "undone", ei))
+            for ei in range(30):
+                out.append(((sk, first, "plain"), "asc", "renamed", ei))
     return out
 
 
